@@ -810,6 +810,10 @@ fn one_mix(cc: &mut CaseCtx, cell: &mut Cell, plan: &MixPlan, mix_id: u64, rep: 
     rep.obs("sessions_total", sessions);
     let fp = format!("{}|{:?}", class, stats.tags.keys().map(|(c, t)| format!("{c}:{t}")).collect::<Vec<_>>());
     rep.case_bytes(fp.as_bytes(), sessions > 0);
+    if rep.samples.len() < 2 && sessions > 0 {
+        rep.sample(serde_json::json!({"kind": "conservation mix", "class": class, "sessions": sessions, "wall_ms": stats.wall_ms,
+            "outcomes": stats.tags.iter().map(|((c, t), n)| format!("{c}:{t}x{n}")).collect::<Vec<_>>()}));
+    }
 
     // Oracle D: sessions the clients left idle / stuck (client sockets still open)
     if plan.has_timeout() {
